@@ -16,6 +16,9 @@ Comps == {"header", "query", "cookie", "ua", "referer", "param"}
 \* arrives is observed on a slow endpoint: a request whose effective timeout is absent or long is answered, and so is the next
 \* request of a client that configured none -- a timeout never outlives the request it was set on
 TimeoutLvl == [client : {"none", "plain", "esc"}, request : {"none", "plain", "esc"}]
+\* the request may also carry a context of its own: without a deadline, with a deadline later than any timeout, or with one that
+\* passes before the reply can arrive.  A later deadline does not extend the timeout; whichever ends first cuts the request off.
+CtxKinds == {"none", "later", "sooner"}
 Lvl == [client : Opt, request : Opt]
 \* precedence components: the request-level value if configured, else the client-level one, else nothing
 Prec(l) == IF l.request # "none" THEN <<[lvl |-> "request", v |-> l.request]>>
@@ -25,14 +28,17 @@ Both(l) == (IF l.client # "none" THEN <<[lvl |-> "client", v |-> l.client]>> ELS
            \o (IF l.request # "none" THEN <<[lvl |-> "request", v |-> l.request]>> ELSE <<>>)
 Arrives(c) == [header |-> Both(c.header), query |-> Both(c.query), cookie |-> Prec(c.cookie),
                ua |-> Prec(c.ua), referer |-> Prec(c.referer), param |-> Prec(c.param), timeout |-> Prec(c.timeout)]
+Cut(c) == \/ c.ctx.request = "sooner"
+          \/ (Prec(c.timeout) # <<>> /\ Prec(c.timeout)[1].v = "esc")
 Default == [client |-> "none", request |-> "none"]
-AllDefault == [k \in Comps \cup {"timeout"} |-> Default]
+AllDefault == [k \in Comps \cup {"timeout", "ctx"} |-> Default]
 \* exhaustive in each component (and in each pair of components), the others unconfigured
 Init == /\ stage = 0
         /\ cfg \in {[AllDefault EXCEPT ![k1] = l1, ![k2] = l2] : k1 \in Comps, k2 \in Comps, l1 \in Lvl, l2 \in Lvl}
-                  \cup {[AllDefault EXCEPT !["timeout"] = l, !["param"] = [client |-> "none", request |-> "plain"]] : l \in TimeoutLvl}
+                  \cup {[AllDefault EXCEPT !["timeout"] = l, !["ctx"] = [client |-> "none", request |-> x],
+                                            !["param"] = [client |-> "none", request |-> "plain"]] : l \in TimeoutLvl, x \in CtxKinds}
 Next == stage = 0 /\ stage' = 1 /\ UNCHANGED cfg
 Spec == Init /\ [][Next]_vars
-Emit == stage = 1 => PrintT(<<"CASE", ToJson([cfg |-> cfg, arrives |-> Arrives(cfg)])>>)
+Emit == stage = 1 => PrintT(<<"CASE", ToJson([cfg |-> cfg, arrives |-> Arrives(cfg), cut |-> Cut(cfg)])>>)
 \* the path parameter must be configured somewhere for the URL template to be complete: the harness skips the rest
 =============================================================================
